@@ -315,8 +315,8 @@ class VectorSpline2D(BaseGridder):
         cast = np.broadcast(*coordinates[:2])
         npoints = cast.size
         components = (
-            np.empty(npoints, dtype=east.dtype),
-            np.empty(npoints, dtype=east.dtype),
+            np.empty(npoints, dtype=np.result_type(east.dtype, np.float32)),
+            np.empty(npoints, dtype=np.result_type(east.dtype, np.float32)),
         )
         if parse_engine(self.engine) == "numba":
             components = predict_2d_numba(
